@@ -205,3 +205,157 @@ def replay(ctx, data):
         if bad:
             print("  " + bad)
         return bad is None
+
+
+# ---------------------------------------------------------------- object lifetime (Model/CxxLifetime.v)
+
+def build_life(d, noshutdown):
+    if not os.path.exists(os.path.join(d, "threaded_dispatcher.h")):
+        for f in ("threadsafe_queue.h", "threaded_dispatcher.h"):
+            with open(os.path.join(HDR, f)) as fh:
+                text = fh.read()
+            for a, b in SUBST:
+                text = text.replace(a, b)
+            with open(os.path.join(d, f), "w") as fh:
+                fh.write(text)
+    out = os.path.join(d, "life_ns" if noshutdown else "life")
+    flags = ["-DLIFE_NOSHUTDOWN=1"] if noshutdown else []
+    rc, so, se = sh(["g++", "-std=c++17", "-O1", "-g"] + flags + ["-I" + d, "-I" + CXX, os.path.join(CXX, "c15_life_replay.cpp"), "-o", out, "-pthread"], timeout=300)
+    return (out, "") if rc == 0 else (None, (so + se)[-3000:])
+
+
+def life_real(binary, m, scripts, schedule):
+    arg = ";".join(",".join(str(i) for i in sc) for sc in scripts)
+    rc, so, se = sh([binary, str(m), arg, " ".join(schedule)], timeout=30)
+    if rc is None:
+        return {"hang": True}
+    if rc != 0:
+        return {"crash": rc, "stderr": se[-800:]}
+    res = {"steps": [], "log": [], "hazard": None, "pure_virtual": False, "done": None}
+    for line in so.split("\n"):
+        if line.startswith("S "):
+            head, en = line.split("|")
+            _s, _t, lab = head.split()
+            res["steps"].append((True, lab, sorted(en.split())))
+        elif line.startswith("X "):
+            res["steps"].append((False, "-", sorted(line.split("|")[1].split())))
+        elif line.startswith("HAZARD"):
+            res["hazard"] = line.split()[1] == "1"
+        elif line.startswith("PURE_VIRTUAL"):
+            res["pure_virtual"] = line.split()[1] == "1"
+        elif line.startswith("DONE"):
+            res["done"] = line.split()[1] == "1"
+        elif line.startswith("LOG "):
+            k, w, i = line[4:].split()
+            res["log"].append((k, int(w), int(i)))
+    return res
+
+
+def life_model(km, cs, m, scripts, schedule):
+    r = km.call("cxx_life_trace", "1" if cs else "0", str(m), [[str(i) for i in sc] for sc in scripts], list(schedule))
+    return {"steps": [(x[0] == b"1", x[1].decode(), sorted(y.decode() for y in x[2])) for x in r[0]],
+            "enabled": sorted(x.decode() for x in r[1]), "log": [(x[0].decode(), int(x[1]), int(x[2])) for x in r[2]],
+            "hazard": r[3] == b"1", "part": r[4].decode(), "done": r[5] == b"1"}
+
+
+def life_schedule(km, rng, cs, m, scripts, n):
+    sched = []
+    for _ in range(n):
+        en = life_model(km, cs, m, scripts, sched)["enabled"]
+        if not en:
+            break
+        # let the owner in early often enough that the destruction overlaps with the work
+        pool = en if rng.random() < 0.45 else ([x for x in en if x != "D"] or en)
+        sched.append(rng.choice(pool))
+    return sched
+
+
+def run_lifetime(ctx):
+    """Derived probe object destroyed in C++ order, real headers under the model-level shim vs the extracted lifetime LTS:
+    with shutdown() in the derived destructor (must agree, never a hazard) and without (must agree, reproduces K-C15-2)."""
+    if ctx.km is None:
+        return
+    rng = ctx.rng
+    with kj.scratch() as d:
+        bins = {}
+        for cs in (True, False):
+            b, err = build_life(d, noshutdown=not cs)
+            if b is None:
+                ctx.tie_broken("lifetime replay probe does not compile (%s shutdown())" % ("with" if cs else "without"), err)
+                return
+            bins[cs] = b
+        # the schedule witnesses of Proofs/CxxLifetimeProofs.v (haz_sched_vcall, haz_sched_running) on the real code
+        for name, sched in (("haz_sched_vcall", ["P0", "W0", "W0", "D", "D", "W0"]), ("haz_sched_running", ["P0", "W0", "W0", "W0", "D", "D"])):
+            r_ns = life_real(bins[False], 1, [[1]], sched)
+            r_sd = life_real(bins[True], 1, [[1]], sched)
+            ctx.case(("life-witness", name), nontrivial=True)
+            if not r_ns.get("hazard"):
+                ctx.tie_broken("the witness %s of C15_lifetime_refuted_without_shutdown shows no hazard on the real derived class without shutdown()" % name)
+            if r_sd.get("hazard") or "steps" not in r_sd:
+                ctx.violation("object lifetime: hazard on the schedule %s although the derived destructor calls shutdown() first" % name,
+                              {"lifetime": True, "calls_shutdown": True, "workers": 1, "scripts": [[1]], "schedule": sched,
+                               "finding_key": "c15:lifetime_hazard_with_shutdown"})
+            ctx.count("lifetime_replay:coq_witness_replayed")
+        n = ctx.budget(120, 3000)
+        hazards = 0
+        for k in range(n):
+            cs = (k % 3 != 2)
+            m = rng.choice([1, 1, 2, 3])
+            nxt = [0]
+
+            def items(c):
+                res = list(range(nxt[0] + 1, nxt[0] + 1 + c))
+                nxt[0] += c
+                return res
+            scripts = [items(rng.randint(1, 3)) for _ in range(rng.randint(1, 2))]
+            sched = life_schedule(ctx.km, rng, cs, m, scripts, rng.randint(6, 60))
+            real = life_real(bins[cs], m, scripts, sched)
+            model = life_model(ctx.km, cs, m, scripts, sched)
+            replay = {"lifetime": True, "calls_shutdown": cs, "workers": m, "scripts": scripts, "schedule": sched}
+            ctx.case(("life", cs, m, json.dumps(scripts), tuple(sched)), nontrivial="D" in sched and len(set(sched)) >= 2)
+            ctx.count("lifetime_replay:%s" % ("with_shutdown" if cs else "without_shutdown"))
+            if "steps" not in real:
+                ctx.tie_broken("lifetime replay probe hang/crash: %r" % (real,), replay)
+                return
+            diff = None
+            for i, (a, b) in enumerate(zip(real["steps"], model["steps"])):
+                if a != b:
+                    diff = "step %d: real %r, model %r" % (i, a, b)
+                    break
+            if diff is None and not real["pure_virtual"]:
+                if len(real["steps"]) != len(model["steps"]):
+                    diff = "number of steps: real %d, model %d" % (len(real["steps"]), len(model["steps"]))
+                elif real["log"] != model["log"]:
+                    diff = "handler log: real %r, model %r" % (real["log"], model["log"])
+                elif real["done"] != model["done"]:
+                    diff = "owner finished: real %r, model %r" % (real["done"], model["done"])
+            if diff is None and real["hazard"] != model["hazard"]:
+                diff = "hazard: real %r (pure virtual call: %r), model %r" % (real["hazard"], real["pure_virtual"], model["hazard"])
+            if diff:
+                replay["detail"] = diff
+                ctx.tie_broken("correspondence real derived dispatcher under the shim vs CxxLifetime.lstep: " + diff, replay)
+                return
+            if real["hazard"]:
+                if cs:
+                    replay["finding_key"] = "c15:lifetime_hazard_with_shutdown"
+                    ctx.violation("object lifetime: a virtual call / running handler met a dying derived part although the derived "
+                                  "destructor calls shutdown() first", replay)
+                else:
+                    hazards += 1
+                    ctx.count("lifetime_replay:hazard_reproduced_without_shutdown")
+                    if hazards == 1:
+                        replay["finding_key"] = "c15:vptr_race_on_destruction"
+                        ctx.violation("object lifetime (derived destructor without shutdown()): virtual call or running handler on a "
+                                      "derived part that is being destroyed", replay)
+
+
+def replay_lifetime(ctx, data):
+    with kj.scratch() as d:
+        b, err = build_life(d, noshutdown=not data["calls_shutdown"])
+        if b is None:
+            print("  lifetime replay probe does not compile")
+            return False
+        real = life_real(b, data["workers"], data["scripts"], data["schedule"])
+        if real.get("hazard"):
+            print("  object lifetime hazard%s" % (" (pure virtual method called)" if real.get("pure_virtual") else ""))
+        return "steps" in real and not real["hazard"]
